@@ -7,7 +7,7 @@
                            whose virtual node wins the probe loop (Proofs.v).
    R >= 1 is New's precondition (it panics otherwise); probes may be anything. *)
 From Coq Require Import List NArith ZArith Arith Bool.
-From Verif.C45 Require Import Model Spec Proofs Link Search Nearest.
+From Verif.C45 Require Import Model Spec Proofs Link Search Nearest Caller.
 Import ListNotations.
 
 (* One owner from the current members: after any history, Lookup answers with the (latest) value of a
@@ -87,6 +87,51 @@ Theorem c45_owner_is_nearest : forall (h : list N -> N) (R P : nat), (1 <= R)%na
 Proof. exact owner_is_nearest. Qed.
 Print Assumptions c45_owner_is_nearest.
 
+
+(* ---- the caller, felix/dataplane/linux/proxy_neigh_mgr.go (Model.pnm): one manager per cluster node ----
+     node_selects h v6 host ops ip   what selectNodeForIP(ip) returns on the manager of node `host` (IP family
+                                     v6) after the history ops of HostMetadataUpdate/Remove messages,
+                                     earlier selectNodeForIP calls and CompleteDeferredWork calls
+     hosts_after v6 ops              the hosts with an address of that family the node then knows (Spec.v) *)
+
+(* Every node elects the same owner: for any address there is ONE owner o, a current member (none iff there
+   is no member), such that every node knowing the same hosts - whatever its hostname, message order, repeats,
+   flaps, earlier lookups - answers "mine" exactly when its hostname is o. *)
+Theorem c45_nodes_elect_one_owner : forall (h : list N -> N) (v6 : bool) (ops : list nop) (ip : key),
+  exists o : option key,
+    (o = None <-> hosts_after v6 ops = []) /\
+    (forall x, o = Some x -> sm_get (hosts_after v6 ops) x = Some x) /\
+    forall host' ops', same_members (hosts_after v6 ops') (hosts_after v6 ops) ->
+      node_selects h v6 host' ops' ip = match o with Some x => key_eqb x host' | None => false end.
+Proof. exact nodes_elect_one_owner. Qed.
+Print Assumptions c45_nodes_elect_one_owner.
+
+(* ... so two nodes with the same view never both answer neighbour discovery for one address. *)
+Theorem c45_nodes_never_both : forall (h : list N -> N) (v6 : bool) (host1 host2 : key) (ops1 ops2 : list nop) (ip : key),
+  same_members (hosts_after v6 ops1) (hosts_after v6 ops2) ->
+  node_selects h v6 host1 ops1 ip = true -> node_selects h v6 host2 ops2 ip = true -> host1 = host2.
+Proof. exact nodes_never_both. Qed.
+Print Assumptions c45_nodes_never_both.
+
+(* A message raises the manager's dirty flag (which makes it re-elect) exactly when it changes the member set. *)
+Theorem c45_dirty_tracks_membership : forall (h : list N -> N) (v6 : bool) (host : key) (ops : list nop) (msg : hmsg),
+  p_dirty (node_after h v6 host (ops ++ [NMsg msg])) =
+  p_dirty (node_after h v6 host ops)
+  || negb (Nat.eqb (length (hosts_after v6 (ops ++ [NMsg msg]))) (length (hosts_after v6 ops))).
+Proof. exact dirty_tracks_membership. Qed.
+Print Assumptions c45_dirty_tracks_membership.
+
+
+(* The oracle for node cases (per node: dirty raised by every membership change and cleared by
+   CompleteDeferredWork, "mine" only from a member; across the nodes that know the same hosts: at most one
+   hostname answers, it is a member, and somebody answers when every member is one of them) accepts every
+   collection of model nodes, for any families, hostnames (even duplicate) and histories. *)
+Theorem c45_nodes_model_meets_spec : forall (h : list N -> N) (gtbl : list (key * list N)) (ips : list key)
+  (ds : list (bool * key * list nop)),
+  ok_nodes (Build_ncase gtbl ips (map (mk_node h ips) ds)) = true.
+Proof. exact nodes_model_meets_spec. Qed.
+Print Assumptions c45_nodes_model_meets_spec.
+
 (* ---- the hypotheses are satisfiable by non-trivial states (a maximally colliding hash: the length) ---- *)
 Definition ex_hash (b : list N) : N := N.of_nat (length b).
 Definition ex_ops1 : list (op val) :=
@@ -109,3 +154,12 @@ Example ex_untouched : untouched [1]%N [ORemove [2]%N].
 Proof. intros o [<-|[]]. discriminate. Qed.
 Example ex_fms_ok : fms_ok [] ex_ops1 [BUnit; BUnit; BLook LNone LNone [([2], [20]); ([1], [10])]%N; BUnit; BUnit; BUnit; BUnit] = true.
 Proof. vm_compute. reflexivity. Qed.
+
+Definition ex_nops1 : list nop := [NMsg (HUpdate [1] [4] []); NMsg (HUpdate [2] [4] [6]); NSelect [9]; NMsg (HUpdate [3] [] [6]); NMsg (HRemove [2]); NMsg (HUpdate [2] [4] [6])]%N.
+Definition ex_nops2 : list nop := [NMsg (HUpdate [2] [4] [6]); NComplete; NMsg (HUpdate [1] [4] [])]%N.
+Example ex_nodes :   (* same two v4 hosts via different histories; exactly node [1] owns [9;9], node [2] owns [] *)
+  hosts_after false ex_nops1 = [([2], [2]); ([1], [1])]%N /\ hosts_after false ex_nops2 = [([1], [1]); ([2], [2])]%N
+  /\ node_selects ex_hash false [1]%N ex_nops1 [9;9]%N = true /\ node_selects ex_hash false [2]%N ex_nops2 [9;9]%N = false
+  /\ node_selects ex_hash false [2]%N ex_nops1 []%N = node_selects ex_hash false [2]%N ex_nops2 []%N
+  /\ p_dirty (node_after ex_hash false [1]%N ex_nops2) = true.
+Proof. vm_compute. repeat split. Qed.
